@@ -28,6 +28,7 @@ ASSUMPTIONS = [
     "same address-family constants on both ends (the UDP path passes listener.family through int())",
     "virtual time is integral seconds; client and server clocks are independent non-decreasing inputs",
     "c10_no_cross holds under NoStaleReuse (stated in Props/C10.v): an identifier is not re-allocated by the client while frames or server handlers of its previous incarnation are still alive",
+    "c11_server_no_crash_full: 16-bit identifiers (wire format), a conforming peer (UDP_OPEN carries a decimal family and is never sent on an open identifier, UDP_DATA = 'ip,port,'+payload with port <= 65535) and recvfrom peers of address size; without the last two the loop can only raise AssertionError / ValueError (c11_server_only_assert_value); UDP_OPEN, UDP_CLOSE, UDP_OPEN of one identifier inside ONE iteration ends the server with Fatal 'already open' (model and code agree; not reachable with the default MAX_CHANNEL)",
 ]
 
 
